@@ -39,7 +39,10 @@ RULE = ("1-3 user nodes (UserInput / two-output function node; values from a poo
         "results; ~20% of the steps repeat an earlier step (other spelling), ~20% are near-identical variants "
         "(1 vs '1' vs True vs 1.0, -1 vs -2 and -1.0 vs -2.0 (equal hash()), None vs 'None', a channel vs the string spelling its scoped label, swapped "
         "operands, other receiver); plus a family of identifier labels that make the '_'-join of the label ambiguous; "
-        "each returned node is pulled with p=0.6. Non-trivial = at least one node was "
+        "each returned node is pulled with p=0.6. Macro family: the same programs written inside a generated macro "
+        "definition (inputs = macro parameters), every binary entry point as x <op> x, slices with one bound used "
+        "twice (x[i:i], x[i::i], x[:i:i], x[i:i:i]) and random programs biased to one input feeding both operands of "
+        "one operator node; the macro is run and its output compared with python. Non-trivial = at least one node was "
         "injected; distinct = distinct (graph, program)")
 TRUSTED = ["CPython's operators, repr()/str() and slice() enter the model as a finite table computed by the real interpreter "
            "on the values a case can reach (Inject.tbl_pyop / tbl_str); a missing row can only produce a disagreement",
@@ -432,13 +435,17 @@ def generate(ctx):
     hm = handmade()
     if ctx.quick:
         hm = [c for i, c in enumerate(hm) if (i + ctx.seed) % 3 == 0]
-    hm = hm + framing_family() + hash_twin_family()
+    mf = macro_family()
+    if ctx.quick:
+        mf = [c for i, c in enumerate(mf) if (i + ctx.seed) % 2 == 0]
+    hm = hm + framing_family() + hash_twin_family() + mf
     for c in hm:
         seen.add(json.dumps(c, sort_keys=True))
         cases.append(c)
     n = ctx.n(900, 9000)
+    n_macro = ctx.n(120, 1500)
     while len(cases) < n + len(hm):
-        c = gen_case(rng)
+        c = gen_macro_case(rng) if len(cases) < len(hm) + n_macro else gen_case(rng)
         k = json.dumps(c, sort_keys=True)
         if k in seen:
             continue
@@ -505,6 +512,8 @@ def run_impl(case):
     from pyiron_workflow.channels import NOT_DATA
     case = _tolist(case)
     _install()
+    if _is_macro(case):
+        return run_macro_impl(case)
     old = os.getcwd()
     root = tempfile.mkdtemp(prefix="c18_")
     os.chdir(root)
@@ -655,6 +664,8 @@ def model_view(case, obs):
     """what the model predicts: everything but the detail kept for the oracle; nominal labels by digest"""
     if not isinstance(obs, list):
         return obs
+    if _is_macro(case):
+        return obs[:2] if obs and obs[0] == "val" else ["err"]
     return [[s[0], [digest(n) for n in s[1]]] + s[2:5] if len(s) == 6 else s for s in obs]
 
 
@@ -777,7 +788,212 @@ def model_term(case):
             steps.append(f"(SSlice {_ref_coq(s['recv'])} {' '.join(_ref_coq(r) for r in s['m'])} {cb(bool(s.get('pull')))})")
         else:
             steps.append(f"(SUnsup {_ref_coq(s['recv'])} {_ref_coq(s['other'])})")
+    if _is_macro(case):
+        return f"t_macro {rows_c} {strs_c} {reprs_c} {users_c} {cl(steps)} {cn(case['out'])}"
     return f"t_run {rows_c} {strs_c} {reprs_c} {cb(case['parent'])} {users_c} {cl(steps)}"
+
+
+
+# ---- the same programs written INSIDE A MACRO DEFINITION -----------------------------------------------
+# case = {"kind": "macro", "parent": True, "users": [macro inputs as ui users, not run], "steps": [...], "out": k}
+# The macro class is generated as source text (the library scrapes it), instantiated with the input values,
+# run, and its single output is compared with plain python on the underlying values.
+GEN = lib.BUILD / "c18_gen"
+_MODS: dict = {}
+SYMBOL = {"lt": "<", "le": "<=", "ne": "!=", "gt": ">", "ge": ">=", "add": "+", "sub": "-", "mul": "*", "matmul": "@",
+          "truediv": "/", "floordiv": "//", "mod": "%", "pow": "**", "and": "&", "xor": "^", "or": "|"}
+PREFIX = {"neg": "-", "pos": "+", "invert": "~"}
+
+
+def _src_ref(ref):
+    k = ref[0]
+    if k in ("chan", "node"):
+        return f"x{ref[1]}"
+    if k == "raw":
+        return repr(build_val(ref[1]))
+    return f"t{ref[1]}" + (".channel" if ref[2] else "")
+
+
+def _src_step(s):
+    if s["k"] == "slice":
+        ms = ["" if r == ["raw", ["none"]] else _src_ref(r) for r in s["m"]]
+        return f"{_src_ref(s['recv'])}[{ms[0]}:{ms[1]}:{ms[2]}]"
+    e, recv = s["e"], _src_ref(s["recv"])
+    o = _src_ref(s["others"][0]) if s["others"] else None
+    if e in SYMBOL:
+        return f"({recv}) {SYMBOL[e]} ({o})"
+    if e in PREFIX:
+        return f"{PREFIX[e]}({recv})"
+    if e == "rmul":
+        return f"({o}) * ({recv})" if s["others"][0][0] == "raw" else f"({recv}).__rmul__({o})"
+    if e == "getitem":
+        return f"({recv})[{o}]"
+    if e == "getattr":
+        return f"({recv}).{build_val(s['others'][0][1])}"
+    if e in ("abs", "round"):
+        return f"{e}({recv})"
+    if e in ("eq", "contains"):
+        return f"({recv}).{e}({o})"
+    return f"({recv}).{e}()"          # bool len int float
+
+
+def macro_source(case):
+    params = ", ".join(f"x{i}" for i in range(len(case["users"])))
+    body = "".join(f"    t{i} = {_src_step(s)}\n" for i, s in enumerate(case["steps"]))
+    return ("from pyiron_workflow import as_macro_node\n\n\n"
+            f"@as_macro_node(\"out\")\ndef M18(self, {params}):\n{body}    return t{case['out']}\n")
+
+
+def _load_macro(src):
+    import hashlib
+    import importlib.util
+    import sys
+    name = "c18m_" + hashlib.sha1(src.encode()).hexdigest()[:16]
+    if name in _MODS:
+        return _MODS[name]
+    GEN.mkdir(parents=True, exist_ok=True)
+    path = GEN / f"{name}.py"
+    if not path.exists() or path.read_text() != src:
+        tmp = GEN / f".{name}.{os.getpid()}.tmp"
+        tmp.write_text(src)
+        tmp.replace(path)
+    spec = importlib.util.spec_from_file_location(name, path)
+    mod = importlib.util.module_from_spec(spec)
+    sys.modules[name] = mod
+    try:
+        spec.loader.exec_module(mod)
+    except BaseException:
+        sys.modules.pop(name, None)
+        raise
+    _MODS[name] = mod
+    if len(_MODS) > 300:
+        for k in list(_MODS)[:150]:
+            sys.modules.pop(k, None)
+            _MODS.pop(k, None)
+    return mod
+
+
+def run_macro_impl(case):
+    from pyiron_workflow.channels import NOT_DATA
+    old = os.getcwd()
+    root = tempfile.mkdtemp(prefix="c18m_")
+    os.chdir(root)
+    try:
+        try:
+            cls = _load_macro(macro_source(case)).M18
+            m = cls(*[build_val(u["vals"][0]) for u in case["users"]], label="m")
+        except Exception as e:     # noqa: BLE001
+            return ["def-err", _exc_name(e), str(e)[:200]]
+        try:
+            m.run()
+        except Exception as e:     # noqa: BLE001
+            c = e.__cause__
+            return ["err", _exc_name(e), _exc_name(c) if c is not None else None]
+        v = m.outputs.out.value
+        return ["val", enc(v)] if v is not NOT_DATA else ["err", "NOT_DATA", None]
+    finally:
+        os.chdir(old)
+        shutil.rmtree(root, ignore_errors=True)
+
+
+def macro_oracle(case, obs):
+    ideal = _ideal(case, None)
+    bad = set()
+    for r in ideal:
+        if r[0] == "exc":
+            bad.add(r[1])
+        elif r[0] == "upexc":
+            bad |= set(r[1])
+        elif r[0] != "ok":
+            return None                # malformed writing is not generated inside macros
+    if obs[0] == "def-err":
+        return f"macro-definition: defining/instantiating the macro raised {obs[1]}: {obs[2]}"
+    if bad:
+        several = sum(1 for r in ideal if r[0] == "exc") >= 2      # "multiple errors in children": no cause
+        if obs[0] == "err" and (obs[1] in bad or (obs[1] == "FailedChildError" and (obs[2] in bad or (several and obs[2] is None)))):
+            return None
+        return f"macro-exception: macro gave {obs}; python raises {sorted(bad)}"
+    want = enc(ideal[case["out"]][1])
+    if obs != ["val", want]:
+        return f"macro-value: macro gave {obs}; python gives {want}"
+    return None
+
+
+def _twice(rng, users, theme):
+    """one macro input used for BOTH operands of a single operator node"""
+    u = rng.randrange(len(users))
+    me = ["node", u]
+    if rng.random() < 0.3 and len(users) >= 2:
+        v = rng.choice([k for k in range(len(users)) if k != u])
+        pat = rng.choice([[0, 1, 2], [0, 1], [0, 2], [1, 2]])
+        ms = [["node", v] if i in pat else ["raw", N_] for i in range(3)]
+        return {"k": "slice", "recv": me, "m": ms, "pull": False}
+    e = rng.choice(BINARY + ["getitem"])
+    return {"k": "op", "e": e, "recv": me, "others": [["node", u]], "pull": False, "sp": 0}
+
+
+def gen_macro_case(rng):
+    theme = rng.choice(["num", "num", "num", "seq", "seq", "set", "mixed"])
+    n = rng.choice([1, 1, 2, 2, 3])
+    users = [{"label": f"x{i}", "kind": "ui", "vals": [gen_value(rng, theme)], "ran": False} for i in range(n)]
+    if n >= 2 and rng.random() < 0.5:          # something to slice, something to slice it with
+        users[0]["vals"] = [rng.choice(SEQ + [S("hello")])]
+        users[1]["vals"] = [rng.choice([I(0), I(1), I(2), I(-1), I(3)])]
+    steps = []
+    for _ in range(rng.choice([1, 1, 1, 2, 3, 4])):
+        for _try in range(6):
+            if rng.random() < 0.55:
+                s = _twice(rng, users, theme)
+            else:
+                s = gen_step(rng, users, len(steps), theme)
+            ok = s["k"] != "unsup" and not (s["k"] == "op" and s["e"] == "getattr"
+                                               and build_val(s["others"][0][1]) in ("to_hdf", "_priv"))
+            if not ok:
+                continue
+            exp = _ideal({"users": users, "steps": steps + [s]}, None)[-1]
+            if exp[0] == "ok" or (exp[0] in ("exc", "upexc") and rng.random() < 0.25):
+                break
+        else:
+            continue
+        steps.append(s)
+    if not steps:
+        steps = [{"k": "op", "e": "mul", "recv": ["node", 0], "others": [["node", 0]], "pull": False, "sp": 0}]
+    used = {r[1] for s in steps for r in _step_refs(s) if r[0] in ("chan", "node")}
+    keep = sorted(used)
+    for s in steps:                                # every macro input is used
+        for r in _step_refs(s):
+            if r[0] in ("chan", "node"):
+                r[1] = keep.index(r[1])
+    users = [dict(users[k], label=f"x{i}") for i, k in enumerate(keep)]
+    return {"kind": "macro", "parent": True, "users": users, "steps": steps, "out": len(steps) - 1}
+
+
+def macro_family():
+    """systematic part: x <op> x for every binary entry point, and slices with one bound used twice"""
+    out = []
+    vals = [I(3), FL("2.5"), S("ab"), ["list", [I(1), I(2)]], ["set", [I(1), I(2)]], T_, N_, I(0), ["tuple", [I(1)]]]
+    k = 0
+    for e in BINARY + ["getitem"]:
+        for j in range(3):
+            k += 1
+            v = vals[(k + j) % len(vals)]
+            users = [{"label": "x0", "kind": "ui", "vals": [v], "ran": False}]
+            steps = [{"k": "op", "e": e, "recv": ["node", 0], "others": [["node", 0]], "pull": False, "sp": 0}]
+            out.append({"kind": "macro", "parent": True, "users": users, "steps": steps, "out": 0})
+    seqs = [["list", [I(1), I(2), I(3), I(4), I(5)]], S("hello"), ["tuple", [I(1), I(2), I(3)]]]
+    for q in seqs:
+        for i in (I(0), I(1), I(2), I(-1)):
+            for pat in ([0, 1], [0, 2], [1, 2], [0, 1, 2], [0], [1]):
+                users = [{"label": "x0", "kind": "ui", "vals": [q], "ran": False},
+                         {"label": "x1", "kind": "ui", "vals": [i], "ran": False}]
+                ms = [["node", 1] if p in pat else ["raw", N_] for p in range(3)]
+                steps = [{"k": "slice", "recv": ["node", 0], "m": ms, "pull": False}]
+                out.append({"kind": "macro", "parent": True, "users": users, "steps": steps, "out": 0})
+    return out
+
+
+def _is_macro(case):
+    return isinstance(case, dict) and case.get("kind") == "macro"
 
 
 # ---- the property, checked on the implementation's observation ----------------------------------------
@@ -1007,6 +1223,8 @@ def _show(exp):
 
 
 def oracle(case, obs):
+    if _is_macro(case):
+        return macro_oracle(_tolist(case), obs) if isinstance(obs, list) else f"driver: {obs}"
     v = analyse(case, obs)
     return v[0][2] if v else None
 
@@ -1038,6 +1256,8 @@ def _collisions(case, obs):
 
 
 def known(case, obs, verdict):
+    if _is_macro(case):
+        return None
     case = _tolist(case)
     vs = analyse(case, obs)
     if not vs or not isinstance(obs, list):
@@ -1059,15 +1279,35 @@ def known(case, obs, verdict):
 
 
 def nontrivial(case, obs):
+    if _is_macro(case):
+        return isinstance(obs, list) and obs[:1] in (["val"], ["err"])
     return isinstance(obs, list) and any(isinstance(o, list) and o and o[0] and o[0][0] == "node" for o in obs)
 
 
 def key(case):
-    return [case["parent"], case["users"], case["steps"]]
+    return [case.get("kind"), case["parent"], case["users"], case["steps"], case.get("out")]
 
 
 def shrink_candidates(case):
     case = _tolist(case)
+    if _is_macro(case):
+        for i in range(len(case["steps"])):        # keep only what step i needs, return it
+            need = sorted(_closure(case, i))
+            if len(need) == len(case["steps"]) and i == case["out"]:
+                continue
+            new = json.loads(json.dumps([case["steps"][k] for k in need]))
+            for s in new:
+                for r in _step_refs(s):
+                    if r[0] == "res":
+                        r[1] = need.index(r[1])
+            used = sorted({r[1] for s in new for r in _step_refs(s) if r[0] in ("chan", "node")})
+            for s in new:
+                for r in _step_refs(s):
+                    if r[0] in ("chan", "node"):
+                        r[1] = used.index(r[1])
+            users = [dict(case["users"][u], label=f"x{j}") for j, u in enumerate(used)]
+            yield dict(case, users=users, steps=new, out=need.index(i))
+        return
     steps = case["steps"]
     for i in reversed(range(len(steps))):
         # drop step i when nothing later refers to it (renumber later references)
@@ -1105,8 +1345,18 @@ def distribution(results):
     d = {"cases": 0, "parent": 0, "steps": 0, "nodes": 0, "raise_at_injection": 0, "pull_val": 0, "pull_own": 0,
          "pull_up": 0, "skipped": 0, "stopped": 0, "reused": 0}
     entries, classes = {}, {}
+    d["macro_cases"] = d["macro_val"] = d["macro_err"] = d["macro_same_input_twice"] = 0
     for c, enc_, v, o in results:
         d["cases"] += 1
+        if _is_macro(c):
+            d["macro_cases"] += 1
+            if isinstance(o, list) and o:
+                d["macro_val" if o[0] == "val" else "macro_err"] += 1
+            d["macro_same_input_twice"] += any(
+                len([r for r in _step_refs(s)[0 if s["k"] == "op" else 1:] if r[0] in ("chan", "node")])
+                > len({r[1] for r in _step_refs(s)[0 if s["k"] == "op" else 1:] if r[0] in ("chan", "node")})
+                for s in c["steps"])
+            continue
         d["parent"] += bool(c["parent"])
         if not isinstance(o, list):
             continue
